@@ -32,6 +32,7 @@ def dispatch (st : DState) (line : String) : DState × String :=
   | "terminals" :: args => (st, withArt st args fun a _ => some (opTerminals a))
   | "scan" :: args => (st, withArt st args opScan)
   | "c05oracle" :: args => (st, withArt st args fun a _ => some (opC05 a))
+  | "validate" :: args => (st, withArt st args fun a _ => some (opValidate a))
   | "earley" :: args => (st, withArt st args opEarley)
   | "tree" :: args => (st, withArt st args opTree)
   | "refscan" :: args => (st, withArt st args opRefScan)
